@@ -11,6 +11,9 @@ from .. import attach, gen
 from ..util import maxabs, rng_for
 
 
+REQUESTED = {}
+SHADOWED = [0]
+
 class Model:
     def __init__(self, field):
         self.fields = list(field.fields)
@@ -48,7 +51,12 @@ class Model:
         for b in bounds.values():
             k = self.index_of(b.field)
             P, I = np.nonzero(b.mask)
-            v = b.value
+            # the value the caller asked for (constructor argument / last update), not the attribute the object keeps
+            r = REQUESTED.get(id(b))
+            v = r[1] if (r is not None and r[0] is b) else b.value
+            if r is not None and r[0] is b:
+                SHADOWED[0] += 1
+            v = np.asarray(v, float) if isinstance(v, (list, tuple)) else v
             if isinstance(v, np.ndarray):
                 if v.size == len(P):
                     vals = v.ravel()
@@ -260,7 +268,7 @@ STYLES = ["float", "callable", "and", "skip", "pointmask", "dofmask", "array-dim
           "mask-skip", "dofmask-skip", "update", "short-skip"]
 
 
-def random_bounds(rng, field, mesh, tag, force=None):
+def random_bounds(rng, field, mesh, tag, force=None, variant=0):
     import felupe as fem
     bounds = {}
     nb = int(rng.integers(1, 5))
@@ -287,7 +295,15 @@ def random_bounds(rng, field, mesh, tag, force=None):
         names = ["fx", "fy", "fz"]
         lo, hi = X[:, ax].min(), X[:, ax].max()
         if style == "float":
-            kw[names[ax]] = float(rng.choice([lo, hi]))
+            # documented: a number stands for np.isclose(x, number) (rtol 1e-5, atol 1e-8): a plane position given with a few digits of
+            # noise still selects the plane, one that is off by a thousandth of the body selects nothing
+            plane = float(rng.choice([lo, hi]))
+            pick = int(rng.integers(0, 5))
+            if k == 0 and force == "float":
+                pick = (variant // len(STYLES)) % 5  # scheduled: exact, within the tolerance, outside of it occur in every run
+            off = [0.0, 3e-9 * max(1.0, abs(plane)), 1e-3 * (hi - lo) + 1e-6, -2e-9, 0.0][pick]
+            kw[names[ax]] = plane + off
+            feats.append("float:exact" if off == 0 else ("float:within-tolerance" if abs(off) < 1e-8 * max(1.0, abs(plane)) + 1e-8 else "float:outside-tolerance"))
         elif style == "callable":
             thr = lo + rng.uniform(0.2, 0.8) * (hi - lo)
             kw[names[ax]] = (lambda x, thr=thr: x > thr)
@@ -353,11 +369,17 @@ def random_bounds(rng, field, mesh, tag, force=None):
         if "value" not in kw:
             kw["value"] = float(np.round(rng.standard_normal(), 3)) if rng.integers(0, 2) else 0.0
         b = fem.Boundary(f, **kw)
+        requested = kw["value"]
         if style == "array-full":
-            b = fem.Boundary(f, **{**kw, "value": rng.standard_normal((len(b.points), dim))})
+            requested = rng.standard_normal((len(b.points), dim))
+            b = fem.Boundary(f, **{**kw, "value": requested})
         if style == "update":
             # the value is replaced after construction (what a ramped step does), scalar -> per-component array or other scalar
-            b.update(rng.standard_normal(dim) if rng.integers(0, 2) else float(np.round(rng.standard_normal(), 3)))
+            requested = rng.standard_normal(dim) if rng.integers(0, 2) else float(np.round(rng.standard_normal(), 3))
+            b.update(requested)
+        REQUESTED[id(b)] = (b, np.array(requested, float, copy=True) if isinstance(requested, np.ndarray) else requested)
+        if len(REQUESTED) > 5000:
+            REQUESTED.pop(next(iter(REQUESTED)))
         bounds["%s%d" % (tag, k)] = b
         feats.append(style)
     return bounds, feats
@@ -373,7 +395,7 @@ def case_partition(kind, rep):
         attach_monitors(run)
         try:
             for trial in range(3 if run.tier == "quick" else 8):
-                bounds, feats = random_bounds(rng, field, mesh, "b", force=STYLES[(KINDS.index(kind) * 7 + rep * 3 + trial) % len(STYLES)])
+                bounds, feats = random_bounds(rng, field, mesh, "b", force=STYLES[(KINDS.index(kind) * 7 + rep * 3 + trial) % len(STYLES)], variant=KINDS.index(kind) * 7 + rep * 3 + trial)
                 if not bounds:
                     continue
                 run._label = "%s/%s" % (kind, "+".join(sorted(set(feats))))
@@ -722,7 +744,7 @@ SPEC = {
                        "container-", "container+=", "container-=", "container+list", "getitem", "single-entry-assembly",
                        "solve.partition", "points-without-cells", "fields:2", "fields:3", "loadcase:symmetry",
                        "loadcase:uniaxial", "loadcase:biaxial", "loadcase:shear", "loadcase:uniaxial:values", "loadcase:mixed-container", "loadcase:offset-body", "loadcase:explicit-zero-positions"]
-    + ["feature:" + s for s in ("float", "callable", "and", "skip", "pointmask", "dofmask", "array-dim", "array-full", "or2", "three", "array-skip", "mask-skip", "dofmask-skip", "update", "short-skip")],
+    + ["feature:" + s for s in ("float", "callable", "and", "skip", "pointmask", "dofmask", "array-dim", "array-full", "or2", "three", "array-skip", "mask-skip", "dofmask-skip", "update", "short-skip", "float:exact", "float:within-tolerance")],
     "rule": ("7 container kinds (1..3 fields, constant/linear/disconnected duals, scalar+vector, points without cells) x random "
              "dictionaries of 1..4 possibly overlapping boundaries (coordinate floats/callables, and/or, skip tuples, point and dof "
              "masks, scalar/array values, both insertion orders) judged by post-conditions on dof.partition/apply against the "
